@@ -635,9 +635,10 @@ func newScenario(c *kit.Check, idx int) *scenario {
 	if r.Intn(4) == 0 {
 		sc.opts = &dirs.SnapDirOptions{HiddenSnapDataDir: true}
 	}
-	// the number of per-user archives cycles with the scenario index (and the
-	// seed) so that every run meets multi-archive snapshots
-	sc.users = [][]string{{"alice", "bob"}, {"alice"}, {"alice", "bob", "carol"}}[(idx+int(kit.Seed()%3)+3)%3]
+	// the number of per-user archives cycles with the scenario index so that
+	// every run meets multi-archive snapshots (three users only in the thorough
+	// tier: every archive member costs a tar+gzip process pair per restore)
+	sc.users = [][]string{{"alice", "bob"}, {"alice"}, {"alice", "bob", "carol"}, {"alice", "bob"}}[idx%4]
 	homes := map[string]string{}
 	for _, u := range sc.users {
 		homes[u] = filepath.Join(sc.root, "home", u)
@@ -753,7 +754,7 @@ func TestVerifC32(t *testing.T) {
 	}
 
 	nScen := kit.Scale(2, 4)
-	nImport := kit.Scale(105, 210) // per scenario
+	nImport := kit.Scale(70, 210) // per scenario
 	only := kit.OnlyCase()
 	for s := 0; s < nScen; s++ {
 		if only >= 0 && only/caseStride != s {
